@@ -603,7 +603,7 @@ func (x *Exec) tx(line, n, ty string, a Args, discard bool) {
 		panic("script: unknown tx type " + ty)
 	}
 	x.emit("%s", line)
-	res := w.runMsg(a["plan"], discard, call)
+	res := w.runMsg(a["plan"], discard, a["chain"] == "1", call)
 	x.nsteps++
 	if discard {
 		// only the outcome is observable; the chain must be exactly as before
